@@ -304,6 +304,11 @@ Section Select.
   Variable node : Type.
   Variable key_of : node -> nkey.
   Variable pmatch : N -> node -> bool.     (* alternative alone matches node *)
+  (* which variant of Stylesheet::findTemplate: true = a table entry is tested with the
+     alternative it was created for (XPath::getMatchScore(.., matchPat->getAlternative())),
+     false = with the whole match pattern (the code before the repair of K1).  The value for the
+     current tree is the generated fact GenTmpl.gen_per_alternative *)
+  Variable per_alt : bool.
 
   (* XPath::getMatchScore of the WHOLE match pattern: the first alternative, in the order of the
      pattern, that matches (doGetMatchScore) *)
@@ -316,21 +321,29 @@ Section Select.
   Definition tmatch (t : template) (n : node) : bool :=
     match first_matching (t_alts t) n with Some _ => true | None => false end.
 
-  (* quiet path: first entry of the right mode whose whole pattern matches *)
+  (* the test findTemplate applies to a table entry *)
+  Definition ematch (e : entry) (n : node) : bool :=
+    if per_alt then pmatch (a_pat (e_alt e)) n else tmatch (e_tmpl e) n.
+
+  (* quiet path: first entry of the right mode that passes the test *)
   Fixpoint find_in_list (l : list entry) (mode : option N) (n : node) : option template :=
     match l with
     | [] => None
     | e :: r =>
-        if mode_eqb mode (t_mode (e_tmpl e)) && tmatch (e_tmpl e) n
+        if mode_eqb mode (t_mode (e_tmpl e)) && ematch e n
         then Some (e_tmpl e) else find_in_list r mode n
     end.
 
   (* non-quiet path: the scan by table priority, the same-template skip and the conflict
-     array.  State: best entry and its priority, conflict array, previously examined entry *)
+     array.  State: best entry and its priority, conflict array, previously examined entry and
+     whether it matched.  The skip: a further entry of the template just examined is not looked
+     at (whole-pattern variant: it would be the same test again; per-alternative variant: only
+     when the previous one matched - it cannot change the choice and would be reported as a
+     conflict of the template with itself) *)
   Record nq_state := {
     nq_best : option (entry * Z);
     nq_conf : list entry;
-    nq_prev : option entry }.
+    nq_prev : option (entry * bool) }.
 
   Definition conf_add_if_absent (c : list entry) (e : entry) : list entry :=
     if existsb (fun x => (e_pos x =? e_pos e)%N) c then c else c ++ [e].
@@ -338,25 +351,23 @@ Section Select.
   Definition nq_step (mode : option N) (n : node) (st : nq_state) (e : entry) : nq_state :=
     if negb (mode_eqb mode (t_mode (e_tmpl e))) then st else
     let skip := match nq_prev st with
-                | Some p => template_eqb (e_tmpl p) (e_tmpl e)
+                | Some (p, m) => template_eqb (e_tmpl p) (e_tmpl e) && (negb per_alt || m)
                 | None => false
                 end in
     if skip then st else
-    match first_matching (t_alts (e_tmpl e)) n with
-    | None => {| nq_best := nq_best st; nq_conf := nq_conf st; nq_prev := Some e |}
-    | Some _ =>
+    if ematch e n then
         let pr := prio_or_default e in
         match nq_best st with
-        | None => {| nq_best := Some (e, pr); nq_conf := []; nq_prev := Some e |}
+        | None => {| nq_best := Some (e, pr); nq_conf := []; nq_prev := Some (e, true) |}
         | Some (b, pb) =>
-            if pb <? pr then {| nq_best := Some (e, pr); nq_conf := []; nq_prev := Some e |}
+            if pb <? pr then {| nq_best := Some (e, pr); nq_conf := []; nq_prev := Some (e, true) |}
             else if pr =? pb then
               {| nq_best := Some (e, pr);
                  nq_conf := conf_add_if_absent (nq_conf st) b ++ [e];
-                 nq_prev := Some e |}
-            else {| nq_best := nq_best st; nq_conf := nq_conf st; nq_prev := Some e |}
+                 nq_prev := Some (e, true) |}
+            else {| nq_best := nq_best st; nq_conf := nq_conf st; nq_prev := Some (e, true) |}
         end
-    end.
+    else {| nq_best := nq_best st; nq_conf := nq_conf st; nq_prev := Some (e, false) |}.
 
   Definition find_in_list_nq (l : list entry) (mode : option N) (n : node) : option template :=
     let st := fold_left (nq_step mode n) l {| nq_best := None; nq_conf := []; nq_prev := None |} in
@@ -501,7 +512,7 @@ Section Select.
     rules_of_levels 0 (removelast (postorder s)).
 
   (* ------------------------------------------------------------------------------------ *)
-  (* guard left by the refutation K1 *)
+  (* guard left by the refutation K1 (needed for the whole-pattern variant only) *)
 
   Definition all_templates (s : sheet) : list template := concat (postorder s).
 
